@@ -42,6 +42,17 @@ RESP_CFGS = {
 }
 
 
+
+# Connection option lists (RFC 7230 6.1: comma separated, optional whitespace around the comma, case-insensitive)
+CONNECTION_VALUES = [b"close", b"Close", b"keep-alive", b"keep-alive, CLOSE", b"upgrade", b"TE,close", b"close,TE",
+                     b"close ,TE", b"keep-alive ,\tclose", b"TE, close, upgrade", b"Keep-Alive,Upgrade"]
+
+
+def has_close_option(value):
+    """does a Connection field value (lines already joined with ',') list the `close` option — by the RFC's list syntax,
+    independent of how the library looks for it"""
+    return any(tok.strip(b" \t").lower() == b"close" for tok in value.split(b","))
+
 def hdr_map_str(pairs):
     """canonical header-map text from (lower-case name, value) pairs in arrival order"""
     m = {}
@@ -142,7 +153,7 @@ class Request:
     def keep_alive(self):
         _, m = hdr_map_str(self.hdr_pairs())
         early = self.version[0:1] == b"0" or self.version == b"10"
-        return (not early) and b"close" not in m.get(b"connection", b"").lower()
+        return (not early) and not has_close_option(m.get(b"connection", b""))
 
     def expects_continue(self):
         _, m = hdr_map_str(self.hdr_pairs())
@@ -216,7 +227,7 @@ class Response:
     def keep_alive(self):
         _, m = hdr_map_str(self.hdr_pairs())
         early = self.version[0:1] <= b"0" or self.version == b"10"
-        return (not early) and b"close" not in m.get(b"connection", b"").lower()
+        return (not early) and not has_close_option(m.get(b"connection", b""))
 
     def valid_line(self, body):
         hs, _ = hdr_map_str(self.hdr_pairs())
@@ -349,9 +360,9 @@ def rand_request(rng, cfg, maxc=1048576, maxk=1048576, framing=None, method=None
         elif kind == 1:
             h = rand_header(rng, cfg, cfg.ll, name=b"Cookie")
         elif kind == 2:
-            h = Header(b"Connection", [rng.choice([b"close", b"Close", b"keep-alive", b"keep-alive, CLOSE", b"upgrade"])],
-                       b" " if cfg.ws >= 1 else b"", [rand_eol(rng, cfg)])
-            if any(x.name.lower() == b"connection" for x in headers):
+            h = Header(b"Connection", [rng.choice(CONNECTION_VALUES)], b" " if cfg.ws >= 1 else b"", [rand_eol(rng, cfg)])
+            # a second Connection line is legal (the list is split over two field lines) but kept rare
+            if any(x.name.lower() == b"connection" for x in headers) and not rng.chance(1, 3):
                 continue
         else:
             h = rand_header(rng, cfg, cfg.ll)
